@@ -264,7 +264,7 @@ Lemma y_items_12 : forall fuel k g1 g2,
   inv g1 -> yrel (YST c1 fuel k g1) (YST c2 fuel k g2) g2.
 Proof.
   intros fuel k g1 g2 I. unfold y_items_from_stream. rewrite !ybind_ylift.
-  destruct (zstep k next_token) as [k1|e|]; try exact Logic.I.
+  destruct (zstep k require_next_token) as [k1|e|]; try exact Logic.I.
   destruct (z_cur (k_z k1)); [|exact Logic.I].
   destruct (negb (str_eqb (upper s) K_NEXUS)); [exact Logic.I|].
   apply y_blocks_loop_12. assumption.
